@@ -419,4 +419,37 @@ example : (verifyCall "h" { tetQ with peerPk := "peer-R" } "h" tetQ).isOk = fals
 
 end Examples
 
+
+/-! ## 8. the repaired verification step (fix: commits b547c87, 7eb402e in /repo) -/
+
+/-- **A trace state naming a CID that no store holds is an error, never a crash**: the attribution of a
+trace state to its signer returns a value or `CidNotFound` (before the repair these four lookups were
+`expect("cannot happen in a checked CID store")`). -/
+theorem C14_attribution_never_panics (ci : CidInfo) (st : ExecutedState) (site : String) :
+    stateContribution ci st ≠ .panic site := by
+  unfold stateContribution
+  intro h
+  split at h
+  · split at h
+    · cases h
+    · split at h
+      · cases h
+      · split at h <;> cases h
+  · split at h
+    · cases h
+    · split at h <;> cases h
+  · cases h
+
+/-- **Every value of an accepted store is JSON**: the lazy `RawValue::get_value` (whose parse failure used
+to be a panic at first use) can no longer be reached with a text that does not parse. -/
+theorem C14_verified_values_are_json (E : VerifyEnv) (ci : CidInfo) (h : ci.verify E = .ok ()) :
+    ∀ cid v, (cid, v) ∈ ci.values → E.isJson v = true :=
+  (verify_ok h).valueJson
+
+/-- a store with a non-JSON value is refused with `MalformedValue` naming the entry (first failing entry wins) -/
+theorem C14_non_json_value_rejected (E : VerifyEnv) (cid : Cid) (v : String) (rest : List (Cid × String))
+    (hc : E.cidCheck cid (strBytes v) = .ok ()) (hj : E.isJson v = false) :
+    verifyValueStore E ((cid, v) :: rest) = .error (.malformedValue cid) := by
+  simp [verifyValueStore, allOk, hc, hj]
+
 end AquaProps.C14
